@@ -630,8 +630,8 @@ def inline_generators(tree, resolve):
             if cur.orelse:
                 return None
             chain.append(cur)
-            if len(cur.body) == 1 and isinstance(cur.body[0], ast.For):
-                cur = cur.body[0]
+            if len(cur.body) == 1 and isinstance(cur.body[0], (ast.For, ast.If)):
+                cur = cur.body[0]       # ... a filter (`if cond:` without else) is a level of the nest like a loop
                 continue
             break
         inner = chain[-1]
@@ -646,9 +646,10 @@ def inline_generators(tree, resolve):
             elts = y.args           # a record built positionally from the loop variables
         else:
             return None
-        if not all(isinstance(e, ast.Name) for e in elts):
+        if any(isinstance(e, ast.Starred) for e in elts):
             return None
-        return chain, [e.id for e in elts]
+        # a yielded loop variable is renamed to the target receiving it; any other expression is assigned to the target
+        return chain, [e.id if isinstance(e, ast.Name) else e for e in elts]
 
     for fn in [n for n in ast.walk(tree) if isinstance(n, FUNCS)]:
         for blk, i, st in _own_statements(fn):
@@ -672,17 +673,24 @@ def inline_generators(tree, resolve):
             if any(isinstance(n, ast.Break) for n in ast.walk(st)):
                 continue
             stored = {n.id for n in ast.walk(g) if isinstance(n, ast.Name) and isinstance(n.ctx, ast.Store)}
-            if len(set(ynames)) != len(ynames) or not set(ynames) <= stored or (stored & set(params)):
+            if stored & set(params):
+                continue
+            yexprs = [(y_, t) for y_, t in zip(ynames, tg) if not isinstance(y_, str) or y_ not in stored]
+            ypairs = [(y_, t) for y_, t in zip(ynames, tg) if isinstance(y_, str) and y_ in stored]
+            ynames = [y_ for y_, _ in ypairs]
+            if len(set(ynames)) != len(ynames):
                 continue
             ren = {}
             k = 0
-            for yn, t in zip(ynames, tg):
+            for yn, t in ypairs:
                 if t.id == '_':
                     k += 1
                     ren[yn] = '_%d' % k
                 else:
                     ren[yn] = t.id
             caller_names = {n.id for n in ast.walk(fn) if isinstance(n, ast.Name)} | {a.arg for a in fn.args.args}
+            if yexprs and any(t.id in ren.values() and t.id != '_' for _, t in yexprs):
+                continue
             for nm in stored - set(ynames):
                 ren[nm] = nm + '__it' if nm in caller_names or nm in ren.values() else nm
             for p_, a in zip(params, st.iter.args):
@@ -695,9 +703,19 @@ def inline_generators(tree, resolve):
                     return n
             outer = _Ren().visit(_clone(chain[0]))
             cur = outer
-            while len(cur.body) == 1 and isinstance(cur.body[0], ast.For):
+            while len(cur.body) == 1 and isinstance(cur.body[0], (ast.For, ast.If)):
                 cur = cur.body[0]
-            cur.body = st.body
+            pre = []
+            for y_, t in yexprs:
+                if t.id == '_':
+                    continue
+                v_ = _Ren().visit(_clone(y_ if not isinstance(y_, str) else ast.Name(id=y_, ctx=ast.Load())))
+                pre.append(ast.copy_location(ast.Assign(targets=[ast.Name(id=t.id, ctx=ast.Store())], value=v_), st))
+            if len(pre) > 1:
+                # the yielded tuple is built before any target is bound
+                pre = [ast.copy_location(ast.Assign(targets=[ast.Tuple(elts=[a_.targets[0] for a_ in pre], ctx=ast.Store())],
+                                                    value=ast.Tuple(elts=[a_.value for a_ in pre], ctx=ast.Load())), st)]
+            cur.body = pre + st.body
             for n in ast.walk(outer):
                 if isinstance(n, ast.For) and not hasattr(n, 'lineno'):
                     n.lineno = st.lineno
@@ -1264,4 +1282,144 @@ def nest_workers(tree):
         changed = True
     if changed:
         ast.fix_missing_locations(tree)
+    return changed
+
+
+def unmap_loops(tree):
+    """`for x in map(f, xs): BODY` reads `for x__m in xs: x = f(x__m); BODY` (map is lazy: same order of evaluation), also
+    under enumerate(); a module-level `g = attrgetter('a')` applied this way reads as the attribute itself."""
+    getters = {}
+    for s in tree.body:
+        if isinstance(s, ast.Assign) and len(s.targets) == 1 and isinstance(s.targets[0], ast.Name) and isinstance(s.value, ast.Call) \
+                and ((isinstance(s.value.func, ast.Name) and s.value.func.id == 'attrgetter')
+                     or (isinstance(s.value.func, ast.Attribute) and s.value.func.attr == 'attrgetter' and isinstance(s.value.func.value, ast.Name) and s.value.func.value.id == 'operator')) \
+                and len(s.value.args) == 1 and not s.value.keywords and isinstance(s.value.args[0], ast.Constant) \
+                and isinstance(s.value.args[0].value, str) and s.value.args[0].value.isidentifier():
+            getters[s.targets[0].id] = s.value.args[0].value
+    for nm in list(getters):
+        if sum(1 for n in ast.walk(tree) if isinstance(n, ast.Name) and n.id == nm and isinstance(n.ctx, (ast.Store, ast.Del))) != 1:
+            del getters[nm]
+    changed = False
+
+    def is_map(c):
+        return isinstance(c, ast.Call) and isinstance(c.func, ast.Name) and c.func.id == 'map' and len(c.args) == 2 and not c.keywords \
+            and not any(isinstance(a, ast.Starred) for a in c.args) and isinstance(c.args[0], (ast.Name, ast.Lambda, ast.Attribute))
+
+    def apply(f, x):
+        if isinstance(f, ast.Name) and f.id in getters:
+            return ast.Attribute(value=x, attr=getters[f.id], ctx=ast.Load())
+        if isinstance(f, ast.Lambda) and len(f.args.args) == 1 and not f.args.defaults and not f.args.vararg and not f.args.kwarg and not f.args.kwonlyargs:
+            return _Subst(names={f.args.args[0].arg: x}).visit(_clone(f.body))
+        return ast.Call(func=_clone(f), args=[x], keywords=[])
+    for fn in [n for n in ast.walk(tree) if isinstance(n, FUNCS)]:
+        names = {n.id for n in ast.walk(fn) if isinstance(n, ast.Name)}
+        for blk, i, st in _own_statements(fn):
+            if not isinstance(st, ast.For) or st.orelse:
+                continue
+            it = st.iter
+            tgt = None
+            if is_map(it) and isinstance(st.target, ast.Name):
+                tgt, m = st.target, it
+            elif isinstance(it, ast.Call) and isinstance(it.func, ast.Name) and it.func.id == 'enumerate' and len(it.args) == 1 and not it.keywords \
+                    and is_map(it.args[0]) and isinstance(st.target, ast.Tuple) and len(st.target.elts) == 2 and isinstance(st.target.elts[1], ast.Name):
+                tgt, m = st.target.elts[1], it.args[0]
+            if tgt is None:
+                continue
+            raw = tgt.id + '__m'
+            if raw in names:
+                continue
+            bind = ast.Assign(targets=[ast.Name(id=tgt.id, ctx=ast.Store())], value=apply(m.args[0], ast.Name(id=raw, ctx=ast.Load())))
+            ast.copy_location(bind, st)
+            if m is it:
+                st.iter = m.args[1]
+            else:
+                it.args[0] = m.args[1]
+            tgt.id = raw
+            st.body.insert(0, bind)
+            ast.fix_missing_locations(st)
+            changed = True
+    if changed:
+        _link(tree)
+    return changed
+
+
+def unmemoise_locals(tree):
+    """a local table that only remembers what an expression of its key gave --
+
+        memo = {}
+        for ..:
+            key = ..
+            if key not in memo:
+                memo[key] = E(key)          # E reads the key and values that do not change in the loop
+            .. memo[key] ..
+
+    -- reads as E(key) wherever it is looked up: the table is an optimisation, every entry equals E of its key.  Only
+    when these are all the uses of the table (never returned, passed on, iterated or deleted from)."""
+    changed = False
+    for fn in [n for n in ast.walk(tree) if isinstance(n, FUNCS)]:
+        own = _own_statements(fn)
+        inits = [(blk, i, s) for blk, i, s in own
+                 if (isinstance(s, ast.Assign) and len(s.targets) == 1 and isinstance(s.targets[0], ast.Name) or isinstance(s, ast.AnnAssign) and isinstance(s.target, ast.Name) and s.value is not None)
+                 and ((isinstance(s.value, ast.Dict) and not s.value.keys) or (isinstance(s.value, ast.Call) and isinstance(s.value.func, ast.Name) and s.value.func.id == 'dict' and not s.value.args and not s.value.keywords))]
+        for blk, i, init in inits:
+            m = (init.targets[0] if isinstance(init, ast.Assign) else init.target).id
+            uses = [n for n in ast.walk(fn) if isinstance(n, ast.Name) and n.id == m]
+            if sum(1 for n in uses if isinstance(n.ctx, (ast.Store, ast.Del))) != 1:
+                continue
+            fills = [(b_, j_, s_) for b_, j_, s_ in own if isinstance(s_, ast.If) and not s_.orelse and len(s_.body) == 1
+                     and isinstance(s_.test, ast.Compare) and len(s_.test.ops) == 1 and isinstance(s_.test.ops[0], ast.NotIn)
+                     and isinstance(s_.test.comparators[0], ast.Name) and s_.test.comparators[0].id == m and isinstance(s_.test.left, ast.Name)
+                     and isinstance(s_.body[0], ast.Assign) and len(s_.body[0].targets) == 1 and isinstance(s_.body[0].targets[0], ast.Subscript)
+                     and isinstance(s_.body[0].targets[0].value, ast.Name) and s_.body[0].targets[0].value.id == m
+                     and isinstance(s_.body[0].targets[0].slice, ast.Name) and s_.body[0].targets[0].slice.id == s_.test.left.id]
+            if len(fills) != 1:
+                continue
+            fb, fj, fill = fills[0]
+            key = fill.test.left.id
+            e = fill.body[0].value
+            if any(isinstance(n, ast.Name) and n.id == m for n in ast.walk(e)):
+                continue
+            # the enclosing loop: names E reads, other than the key, are not bound inside it
+            loop = getattr(fill, '_ofparent', None)
+            while loop is not None and not isinstance(loop, (ast.For, ast.While)) and loop is not fn:
+                loop = getattr(loop, '_ofparent', None)
+            if not isinstance(loop, (ast.For, ast.While)) or fb is not loop.body:
+                continue
+            bound_in_loop = {n.id for n in ast.walk(loop) if isinstance(n, ast.Name) and isinstance(n.ctx, (ast.Store, ast.Del))}
+            reads = {n.id for n in ast.walk(e) if isinstance(n, ast.Name) and isinstance(n.ctx, ast.Load)}
+            if (reads - {key}) & bound_in_loop or key not in reads:
+                continue
+            # the key is bound once per iteration, before the fill, and not again
+            key_stores = [n for n in ast.walk(loop) if isinstance(n, ast.Name) and n.id == key and isinstance(n.ctx, (ast.Store, ast.Del))]
+            if len(key_stores) != 1:
+                continue
+            accounted = {id(fill.test.comparators[0]), id(fill.body[0].targets[0].value), id(init.targets[0] if isinstance(init, ast.Assign) else init.target)}
+            lookups = []
+            for b_, j_, s_ in own:
+                if b_ is fb and j_ > fj:
+                    for n in ast.walk(s_):
+                        if isinstance(n, ast.Subscript) and isinstance(n.ctx, ast.Load) and isinstance(n.value, ast.Name) and n.value.id == m \
+                                and isinstance(n.slice, ast.Name) and n.slice.id == key:
+                            lookups.append(n)
+                            accounted.add(id(n.value))
+            if not lookups or any(id(u) not in accounted for u in uses):
+                continue
+
+            class _Look(ast.NodeTransformer):
+                def visit_Subscript(self_, n):
+                    if any(n is l_ for l_ in lookups):
+                        return ast.copy_location(_clone(e), n)
+                    self_.generic_visit(n)
+                    return n
+            for k_, s_ in enumerate(list(fb)):
+                if k_ > fj:
+                    fb[k_] = _Look().visit(s_)
+            fb.remove(fill)
+            blk.remove(init)
+            if not blk:
+                blk.append(ast.copy_location(ast.Pass(), init))
+            changed = True
+            own = _own_statements(fn)
+    if changed:
+        _link(tree)
     return changed
